@@ -16,6 +16,7 @@ from __future__ import annotations
 
 import json
 import sys
+import time
 from concurrent.futures import ThreadPoolExecutor
 
 from . import vecexpr as vx
@@ -27,6 +28,7 @@ PID = "C16"
 U_COEFS = ["one", "m1", "two", "x", "xy", "xpy", "xinv", "dab", "duu"]
 OTHERS = [("one", "a"), ("m1", "a"), ("x", "a"), ("one", "b"), ("x", "b"), ("one", "ab"), ("x", "ab"), ("one", "ua"),
           ("duu", "a")]
+OTHERS_QUICK = [("one", "a"), ("x", "a"), ("m1", "b"), ("x", "ab"), ("one", "ua"), ("duu", "a")]
 OTHERS_MORE = OTHERS + [("dab", "b"), ("xinv", "ab"), ("xpy", "a"), ("m1", "ua")]
 
 
@@ -35,8 +37,8 @@ def _kinds(ucoefs, others):
 
 
 CFG = {
-    "quick": dict(TermKinds=_kinds(U_COEFS, OTHERS), MaxTerms=3, MaxU=2, Forms={"expr", "eqL", "eqU", "eqO"},
-                  ApplyFns={"dota", "twice", "plusu", "norm", "crossb"}, ApplyMaxTerms=2,
+    "quick": dict(TermKinds=_kinds(U_COEFS, OTHERS_QUICK), MaxTerms=3, MaxU=2, Forms={"expr", "eqL", "eqU", "eqO"},
+                  ApplyFns={"dota", "plusu", "norm"}, ApplyMaxTerms=2,
                   NonVecKinds={"nu", "dua", "x", "xdab"}, ScalK2={"zero", "one"}, ScalK1={"zero", "one", "y", "yinv"},
                   ScalK0={"one", "y", "my2", "m1", "dab"}, Assigns=vx.ASSIGNS),
     "thorough": dict(TermKinds=_kinds(U_COEFS, OTHERS_MORE), MaxTerms=4, MaxU=2, Forms={"expr", "eqL", "eqU", "eqO"},
@@ -48,6 +50,7 @@ CFG = {
 INVARIANTS = ["TypeOK", "MoveNegates", "Equivalent", "Solution", "RefusalRule"]
 ORDERS = {"quick": [(0, 1, 2, 3), (2, 1, 0, 3)], "thorough": None}
 LIMIT_S = 20
+NAMES = {1: "u", 2: "a", 3: "b", 4: "c"}
 
 _POOL = None
 
@@ -71,8 +74,8 @@ def build_equation(shape, leaves):
     form = shape["form"]
     if shape["mode"] == "vec":
         left, right = [], []
-        for cprog, vprog, side in shape["ts"]:
-            term = vx.build(cprog, leaves, True) * vx.build(vprog, leaves, True)
+        for cparts, vprog, side in shape["ts"]:
+            term = sp.Add(*(vx.build(c, leaves, True) for c in cparts)) * vx.build(vprog, leaves, True)
             (left if side == "l" else right).append(term)
         if form == "expr":
             return _sum(left)
@@ -231,9 +234,10 @@ def replay_one(job):  # pylint: disable=too-many-locals,too-many-branches,too-ma
 
 def shape_str(shape) -> str:
     if shape["mode"] == "vec":
-        body = " ; ".join(f"{side}: [{vx.prog_str(c)}]*[{vx.prog_str(v)}]" for c, v, side in shape["ts"])
+        body = " ; ".join(f"{side}: (" + " + ".join(vx.prog_str(c, NAMES) for c in cs) + f")*[{vx.prog_str(v, NAMES)}]"
+                          for cs, v, side in shape["ts"])
     else:
-        body = " ; ".join(vx.prog_str(p) for p in shape["ts"])
+        body = " ; ".join(vx.prog_str(p, NAMES) for p in shape["ts"])
     tail = f" reduce={shape['reduce']}" if shape["op"] == "solve" else f" fn={shape['fn']}" if shape["op"] == "apply" else ""
     return f"{shape['op']} {shape['mode']} {shape['form']}{tail} | {body}"
 
@@ -272,7 +276,7 @@ def validate_traces(run: Run, sc, records: list, cmap: dict) -> None:
             elif worst == "bad":
                 job = rec["job"]
                 run.violation(_key(job), f"TLC: recorded call violates the specification (verdicts {verdicts}); outcome "
-                              f"{rec['outcome']}, returned Eq([{vx.prog_str(rec['lhs'])}], [{vx.prog_str(rec['rhs'])}])",
+                              f"{rec['outcome']}, returned Eq([{vx.prog_str(rec['lhs'], NAMES)}], [{vx.prog_str(rec['rhs'], NAMES)}])",
                               {"shape": job["shape"], "order": list(job["order"]), "observed": "trace verdict " + str(verdicts)})
     if seen != set(by_id):
         raise RuntimeError(f"trace validation: {len(set(by_id) - seen)} records without verdict")
@@ -291,21 +295,32 @@ def main() -> int:
     with Scratch() as sc, make_pool() as pool:
         vx.copy_specs(sc)
         cmap = vx.mc_module(sc, "VecSolve", "MC_solve", consts)
-        cfg = write_cfg(sc / "solve.cfg", constants=cmap, invariants=INVARIANTS)
-        res = run_tlc("MC_solve", cfg, sc, workers=8, coverage=True, allow_violation=False, spec_dir=sc)
-        run.add_tlc(res, f"model check: invariants {INVARIANTS}, bounds {bounds}")
-        cfg2 = write_cfg(sc / "emit.cfg", constants=cmap, invariants=["Emit"])
-        res2 = run_tlc("MC_solve", cfg2, sc, workers=1, allow_violation=False, spec_dir=sc)
-        run.add_tlc(res2, "enumeration of the equation shapes (Emit)")
+        # one run: invariants of the model + emission of every shape (workers=1: clean stdout).
+        # no -coverage here: TLC's cost model duplicates the evaluator's operator tree per call site and runs out of
+        # memory on this specification (measured, 8 GB); action coverage is reported from the emitted shapes instead
+        cfg2 = write_cfg(sc / "solve.cfg", constants=cmap, invariants=INVARIANTS + ["Emit"])
+        res2 = run_tlc("MC_solve", cfg2, sc, workers=1, coverage=False, allow_violation=False, spec_dir=sc)
+        run.add_tlc(res2, f"model check + enumeration of the equation shapes: invariants {INVARIANTS}, bounds {bounds}")
+        t_tlc = time.time()
         shapes = res2.printed
         run.coverage["shapes_emitted"] = len(shapes)
+        per_action: dict = {}
+        for shape in shapes:
+            k = f"{shape['mode']}/{shape['op']}/{shape['form']}" + (f"/{shape['fn']}" if shape["op"] == "apply" else "")
+            per_action[k] = per_action.get(k, 0) + 1
+        run.coverage["shapes_per_action"] = per_action
+        expected = {}
+        for shape in shapes:
+            for e_ in shape["exp"]:
+                expected[e_["kind"]] = expected.get(e_["kind"], 0) + 1
+        run.coverage["model_expectations"] = expected
         jobs = []
         for shape in shapes:
             used = [["vec", 1], ["vec", 2], ["vec", 3]] if shape["mode"] != "scalar" else [["vec", 1]]
             for order in vx.orders_for(used, orders):
                 jobs.append(dict(shape=shape, order=order))
         run.coverage["calls"] = len(jobs)
-        stats, refusals, records = {"ok": 0, "violation": 0, "outside": 0}, {}, []
+        stats, refusals, records, seen_recs = {"ok": 0, "violation": 0, "outside": 0}, {}, [], set()
         for job, status, what, recs, eqn in pmap(pool, replay_one, jobs, chunk=100):
             run.traces += 1
             stats[status] += 1
@@ -322,13 +337,20 @@ def main() -> int:
                 run.violation(_key(job), what + f" (given: {eqn[:160]})",
                               {"shape": job["shape"], "order": list(job["order"]), "observed": what})
             for r in recs:
-                r["id"] = len(records) + 1
-                r["job"] = job
-                records.append(r)
+                rk = json.dumps(r, sort_keys=True)
+                if rk not in seen_recs:
+                    seen_recs.add(rk)
+                    r["id"] = len(records) + 1
+                    r["job"] = job
+                    records.append(r)
+        t_replay = time.time()
         run.coverage["replay_outcomes"] = stats
         run.coverage["refusal_exception_types"] = refusals
         vx.mc_module(sc, "VecSolveTrace", "MC_trace", consts)
+        run.coverage["distinct_trace_records"] = len(records)
         validate_traces(run, sc, records, cmap)
+        run.coverage["phase_wall_s"] = {"model": round(t_tlc - run.t0, 1), "replay": round(t_replay - t_tlc, 1),
+                                        "trace": round(time.time() - t_replay, 1)}
     run.assumptions += [
         "values are compared under two generic integer assignments (|component| <= 3, non-zero scalars)",
         "like terms may be collected: any non-empty group of the unknown's terms counts as 'that term' with the sum of "
